@@ -254,35 +254,40 @@ Theorem C06_group_reregistered_route_reaches_old_owner_refuted :
 Proof. exact hq_group_route_reaches_former_owner. Qed.
 Print Assumptions C06_group_reregistered_route_reaches_old_owner_refuted.
 
-(* REFUTED for a request that is overtaken by a registration between its routing decision
-   (injectRequestInfoToCtx decides the pool key) and its dial (CreateConnection looks the route up
-   again): a request that had NO route when it was routed is keyed by the bare host; a route registered
-   before its dial gives it a connection to that route's backend, pooled under the bare-host key.  If
-   the route is unregistered while the request is in flight, later requests to that host -- for which no
-   route exists, the specification says "not found" -- are answered by the former owner's backend over
-   the reused connection.  Replayed on the real code by driver `window` with a gate in front of
-   DialContext.  [hq_plain_op] excludes exactly such overtaken requests (HBeginRaced). *)
-Theorem C06_unrouted_request_reaches_former_owner_refuted :
-  exists st st',
-    hp_run hq_window_witness = Some st /\
-    rt_abs (hp_routes st) = [] /\
-    hp_step st (HBegin 2 0 0 (hx "682e74657374") (hx "2f") [] false) = Some (st', HReached 1) /\
-    hp_spec_out rc_owner (rt_abs (hp_routes st)) (hx "682e74657374") (hx "2f") [] = HNotFound.
-Proof. exact hq_unrouted_request_reaches_former_owner. Qed.
-Print Assumptions C06_unrouted_request_reaches_former_owner_refuted.
+(* a request overtaken by a Register / UnRegister between its routing decision and its round trip
+   (HBeginRaced) reaches the owner of the route chosen when it was ROUTED -- the connection is dialled
+   by that route config, never by a second look-up (repair 4027c37 of F-C06d) ... *)
+Theorem C06_overtaken_request_reaches_routed_owner :
+  forall ops st rid cc proto host path user dialed btw st' out,
+  Forall hq_plain_op ops -> hp_run ops = Some st ->
+  hp_step st (HBeginRaced rid cc proto host path user dialed btw) = Some (st', out) ->
+  out = hp_spec_out rc_owner (rt_abs (hp_routes st)) host path user.
+Proof. exact hq_overtaken_request_reaches_routed_owner. Qed.
+Print Assumptions C06_overtaken_request_reaches_routed_owner.
 
-(* REFUTED, same root cause (the route is looked up once for the pool key and again for the dial): a
-   request routed to (h, "") whose dial is overtaken by the registration of the more specific route
-   (h, "/admin") pools a connection to the /admin backend under the key of (h, ""); the next request
-   that only (h, "") matches -- GET /public -- is served by the /admin route's backend.  Replayed on
-   the real code by driver `window` (gate in front of DialContext). *)
-Theorem C06_raced_registration_cross_wires_refuted :
-  exists st st',
-    hp_run hq_crosswire_witness = Some st /\
-    hp_step st (HBegin 2 0 0 (hx "682e74657374") (hx "2f7075626c6963") [] false) = Some (st', HReached 2) /\
-    hp_spec_out rc_owner (rt_abs (hp_routes st)) (hx "682e74657374") (hx "2f7075626c6963") [] = HReached 1.
-Proof. exact hq_request_cross_wired_to_other_route. Qed.
-Print Assumptions C06_raced_registration_cross_wires_refuted.
+(* ... so a request that matched no route when it was routed is refused and pools nothing, even if a
+   route for its host is registered before its round trip (formerly refuted: it got a connection that was
+   pooled under the bare host and served later unrouted requests) ... *)
+Theorem C06_unrouted_request_never_dialled :
+  forall ops st rid cc proto host path user dialed btw st' out,
+  Forall hq_plain_op ops -> hp_run ops = Some st ->
+  rs_best_match (rt_abs (hp_routes st)) (rt_canon_or_empty host) path user = None ->
+  hp_step st (HBeginRaced rid cc proto host path user dialed btw) = Some (st', out) ->
+  out = HNotFound /\ st' = hp_reg_step st btw.
+Proof. exact hq_unrouted_request_never_dialled. Qed.
+Print Assumptions C06_unrouted_request_never_dialled.
+
+(* ... and an overtaken request never cross-wires the pool: every later request of every later history
+   still reaches exactly the owner of its own most specific route (formerly refuted: GET /public was
+   served by the backend of a route registered for /admin) *)
+Theorem C06_no_cross_wiring_after_overtaken_request :
+  forall ops rid0 cc0 proto0 host0 path0 user0 dialed0 btw later st rid cc proto host path user dialed st' out,
+  Forall hq_plain_op ops -> Forall hq_plain_op later ->
+  hp_run (ops ++ [HBeginRaced rid0 cc0 proto0 host0 path0 user0 dialed0 btw] ++ later) = Some st ->
+  hp_step st (HBegin rid cc proto host path user dialed) = Some (st', out) ->
+  out = hp_spec_out rc_owner (rt_abs (hp_routes st)) host path user.
+Proof. exact hq_no_cross_wiring_after_overtaken_request. Qed.
+Print Assumptions C06_no_cross_wiring_after_overtaken_request.
 
 (* every stream of a cleartext HTTP/2 connection is routed on its own: the outcome of a request does
    not depend on the client connection or stream it arrives on *)
@@ -329,4 +334,22 @@ Example C06_example_reregistration :
                length (hp_idle st) = 1%nat
   | None => False
   end.
+Proof. vm_compute. repeat split. Qed.
+
+(* the former witnesses of F-C06d on the repaired model: GET /admin/x overtaken by Register /admin is
+   served by the routed config (backend 1), the connection it leaves idle serves GET /public from
+   backend 1; an unrouted request overtaken by a registration is refused and leaves nothing behind *)
+Example C06_example_overtaken_requests :
+  let h := hx "682e74657374" in
+  (match hp_run hq_crosswire_history with
+   | Some st => hp_step st (HBegin 2 0 0 h (hx "2f7075626c6963") [] false) =
+                  Some (mkHp (hp_routes st) (hp_seq st) [] [(2, mkConn (KRoute h [] [] [] 1) 1)], HReached 1)
+   | None => False
+   end) /\
+  (match hp_run hq_window_history with
+   | Some st => hp_idle st = [] /\ hp_busy st = [] /\
+                hp_step st (HBegin 2 0 0 h (hx "2f") [] false) = None /\
+                option_map snd (hp_step st (HBegin 2 0 0 h (hx "2f") [] true)) = Some HNotFound
+   | None => False
+   end).
 Proof. vm_compute. repeat split. Qed.
